@@ -68,6 +68,9 @@ PROJECTS = {
     'buildtime_option': (dict(site.PROJECT_B), ['--project-name', 'proj', '--buildtime', '2020-02-02 02:02:02', '--theme', 'readthedocs'], 'no_epoch'),
     # most features at once (zope interfaces, overloads, re-exports, import cycle, several docformats, a module root next to the package)
     'kitchen': (dict(kitchen.KITCHEN), ['--project-name', 'ks', '--process-types', '--privacy=PRIVATE:ks.api.Point', '--sidebar-expand-depth', '2'], None),
+    # only some objects are written, named in an order that is not the sorted one
+    'html_subjects': (dict(site.PROJECT_B), ['--project-name', 'proj', '--sidebar-expand-depth', '2', '--make-html', '--make-intersphinx'] + [x for n in
+                      ('pk.sub.leaf.Leaf', 'pk.mod.Base', 'pk.mod.Sub', 'pk.Exported', 'pk.mod', 'pk.mod.Base.Nested', 'pk.sub') for x in ('--html-subject', n)], None),
     # a star import of a module without __all__, several of the names re-exported by the importer
     'star_reexport': ({'sr/__init__.py': 'from ._impl import *\n__all__ = ["Alpha", "Beta", "Gamma", "Delta", "Epsilon", "zeta", "eta"]\n',
                        'sr/_impl.py': ''.join(f'class {n}:\n    "doc"\n    def m(self): "doc"\n' for n in ('Alpha', 'Beta', 'Gamma', 'Delta', 'Epsilon')) + 'def zeta(): "doc"\ndef eta(): "doc"\nkept = 1\n',
@@ -95,7 +98,7 @@ def _cases(tier, seed):
     names = list(PROJECTS)
     if tier == 'quick':
         names = ['single_root_unnamed', 'two_roots_unnamed', 'three_roots_named', 'zope_and_subclasses', 'docstring_errors', 'buildtime_option', 'case_pairs',
-                 'epoch_zero', 'zope_inherited_interfaces', 'star_reexport', 'sidebar_expanded', 'kitchen']
+                 'epoch_zero', 'zope_inherited_interfaces', 'star_reexport', 'sidebar_expanded', 'kitchen', 'html_subjects']
     for n in names:
         yield {'project': n}
     if tier == 'thorough':
@@ -180,7 +183,7 @@ HARNESS = {
     f'{D}:get_system': {'cases': _cases, 'check': _check,
         'covers': [f'{D}:make', f'{M}:System.addPackage', f'{M}:System.root_names', 'pydoctor/templatewriter/util.py:objects_order',
                    'pydoctor/templatewriter/summary.py:_lckey', 'pydoctor/templatewriter/writer.py:TemplateWriter.writeSummaryPages'],
-        'bound': '12 (15) projects (one/two/three roots, with and without --project-name, 23 cross-importing modules, zope interfaces with 12 implementers, '
+        'bound': '13 (16) projects (one/two/three roots, with and without --project-name, 23 cross-importing modules, zope interfaces with 12 implementers, '
                  'reported docstring errors, source links, --buildtime) x {hash seed 1, hash seed 2, hash seed 77 with reversed directory listings, reused '
                  'output directory}; fresh interpreter per run; sha256 of every written file',
         'budget_s': {'quick': 400, 'thorough': 2400}},
